@@ -32,7 +32,7 @@ impl InputEvent {
 
     pub fn cdata_string(&self) -> Option<String> {
         match &self.event {
-            Event::CData(c) => Some(String::from_utf8(c.to_vec()).expect("utf8")),
+            Event::CData(c) => String::from_utf8(c.to_vec()).ok(),
             _ => None,
         }
     }
@@ -341,23 +341,26 @@ impl From<InputEvent> for OutputEvent {
                     OutputEvent::Other(value.event)
                 }
             }
-            Event::End(e) => {
-                let elem_name: String =
-                    String::from_utf8(e.name().into_inner().to_vec()).expect("utf8");
-                OutputEvent::End(elem_name)
-            }
+            // The reader does not validate UTF-8: anything which is not valid is
+            // passed through as an opaque event rather than converted.
+            Event::End(e) => match String::from_utf8(e.name().into_inner().to_vec()) {
+                Ok(elem_name) => OutputEvent::End(elem_name),
+                Err(_) => OutputEvent::Other(Event::End(e)),
+            },
             // `OutputEvent::Text` holds character data, which is escaped again when
             // written; text that cannot be decoded is passed through untouched.
             Event::Text(t) => match t.unescape() {
                 Ok(text) => OutputEvent::Text(text.into_owned()),
                 Err(_) => OutputEvent::Other(Event::Text(t)),
             },
-            Event::CData(c) => {
-                OutputEvent::CData(String::from_utf8(c.into_inner().to_vec()).expect("utf8"))
-            }
-            Event::Comment(c) => {
-                OutputEvent::Comment(String::from_utf8(c.into_inner().to_vec()).expect("utf8"))
-            }
+            Event::CData(c) => match String::from_utf8(c.to_vec()) {
+                Ok(text) => OutputEvent::CData(text),
+                Err(_) => OutputEvent::Other(Event::CData(c)),
+            },
+            Event::Comment(c) => match String::from_utf8(c.to_vec()) {
+                Ok(text) => OutputEvent::Comment(text),
+                Err(_) => OutputEvent::Other(Event::Comment(c)),
+            },
             _ => OutputEvent::Other(value.event),
         }
     }
@@ -545,8 +548,7 @@ impl TryFrom<&BytesStart<'_>> for SvgElement {
     /// XML type errors (e.g. bad attribute names, non-UTF8) rather than anything
     /// semantic about svgdx / svg formats.
     fn try_from(e: &BytesStart) -> Result<Self> {
-        let elem_name: String =
-            String::from_utf8(e.name().into_inner().to_vec()).expect("not UTF8");
+        let elem_name: String = String::from_utf8(e.name().into_inner().to_vec())?;
 
         let attrs: Result<Vec<(String, String)>> = e
             .attributes()
@@ -571,7 +573,7 @@ impl TryFrom<InputEvent> for SvgElement {
         match ev.event {
             Event::Start(ref e) | Event::Empty(ref e) => {
                 let mut element = SvgElement::try_from(e)?;
-                element.original = String::from_utf8(e.to_owned().to_vec()).expect("utf8");
+                element.original = String::from_utf8(e.to_owned().to_vec())?;
                 element.set_indent(ev.indent);
                 element.set_src_line(ev.line);
                 element.set_order_index(&OrderIndex::new(ev.index));
